@@ -15,9 +15,18 @@
 //!
 //! The background loops are the real ones, polled: `set_single_step` makes them return to the
 //! caller where they would sleep on their condition variable, and the harness calls them again.
-//! Scans are kept apart from the two moments at which the resources an open cursor points into are
-//! released (the memtable dropped after `imm = None` — D-4; files renamed to trash after a
-//! compaction — D-5): those belong to C07 and end the process or the scan, not this property.
+//! In half of the random runs scans are kept apart from the two moments at which the resources an
+//! open cursor points into are released (the memtable dropped after `imm = None` — D-4; files
+//! renamed to trash after a compaction — D-5; both repaired since, cursor lifetime is C07's); in
+//! the other half they overlap them.
+//!
+//! A reader's clone of the tree version (`tree.snapshot`, hooks/lsmtk-kvs-snapshot-event.diff) is a
+//! step of its own in the trace and in the model.  The code makes it inside the critical section in
+//! which it takes mem / imm; the driver checks that no step needing the store mutex falls between
+//! the two events of one reader (`stuck@i:tree-snapshot-outside-lock`).  Schedules open that window:
+//! a directed one parks a reader right after its clone while the flush thread installs its version
+//! and clears `imm` (bounded wait — with the clone under the mutex the flush thread has to wait
+//! instead), and in random runs such a reader lingers while a flush is under way.
 use crate::common::*;
 use crate::store::{scratch_dir, Cfg};
 use lsmtk::KeyValueStore;
@@ -41,6 +50,9 @@ const KEYS: [&[u8]; 10] = [b"", b"a", b"a\0", b"aa", b"ab", b"b", b"b\xff", b"m"
 /// FIFO-fair readers/writer gate: scans are readers; the flush thread between "about to clear
 /// imm" and "memtable dropped", and every compaction step, are writers.
 struct Gate {
+    /// off: every call is a no-op (runs in which scans may overlap the release of the memtable
+    /// and of compacted files — safe since the D-4 and D-5 repairs)
+    on: bool,
     m: Mutex<GateSt>,
     cv: Condvar,
 }
@@ -52,10 +64,13 @@ struct GateSt {
     writer: bool,
 }
 impl Gate {
-    fn new() -> Gate {
-        Gate { m: Mutex::new(GateSt::default()), cv: Condvar::new() }
+    fn new(on: bool) -> Gate {
+        Gate { on, m: Mutex::new(GateSt::default()), cv: Condvar::new() }
     }
     fn read_lock(&self) {
+        if !self.on {
+            return;
+        }
         let mut g = self.m.lock().unwrap();
         let t = g.next;
         g.next += 1;
@@ -67,11 +82,17 @@ impl Gate {
         self.cv.notify_all();
     }
     fn read_unlock(&self) {
+        if !self.on {
+            return;
+        }
         let mut g = self.m.lock().unwrap();
         g.readers -= 1;
         self.cv.notify_all();
     }
     fn write_lock(&self) {
+        if !self.on {
+            return;
+        }
         let mut g = self.m.lock().unwrap();
         let t = g.next;
         g.next += 1;
@@ -83,17 +104,25 @@ impl Gate {
         self.cv.notify_all();
     }
     fn write_unlock(&self) {
+        if !self.on {
+            return;
+        }
         let mut g = self.m.lock().unwrap();
         g.writer = false;
         self.cv.notify_all();
     }
 }
 
+const ROLE_CLIENT: u64 = 0;
+const ROLE_FLUSH: u64 = 1;
+const ANY: u64 = u64::MAX;
+
 /// a point at which a directed schedule parks the thread that reaches it
 struct Block {
     tag: &'static str,
     a0: u64, // u64::MAX = any
     a1: u64,
+    role: u64, // u64::MAX = any thread
     hit: bool,
     open: bool,
 }
@@ -107,18 +136,37 @@ struct DirSt {
 struct Sched {
     gate: Gate,
     directed: bool,
+    /// the flush thread is between passing the wait list and `imm = None` (random runs: a reader
+    /// that has just cloned its tree version lingers while this is set, see `pause_hook`)
+    flush_busy: AtomicBool,
     dir: Mutex<DirSt>,
     dir_cv: Condvar,
 }
 
 impl Sched {
-    fn new(directed: bool) -> Arc<Sched> {
-        Arc::new(Sched { gate: Gate::new(), directed, dir: Mutex::new(DirSt::default()), dir_cv: Condvar::new() })
+    fn new(directed: bool, gated: bool) -> Arc<Sched> {
+        Arc::new(Sched { gate: Gate::new(gated), directed, flush_busy: AtomicBool::new(false), dir: Mutex::new(DirSt::default()), dir_cv: Condvar::new() })
     }
     fn block(&self, tag: &'static str, a0: u64, a1: u64) -> usize {
+        self.block_role(tag, a0, a1, ANY)
+    }
+    fn block_role(&self, tag: &'static str, a0: u64, a1: u64, role: u64) -> usize {
         let mut d = self.dir.lock().unwrap();
-        d.blocks.push(Block { tag, a0, a1, hit: false, open: false });
+        d.blocks.push(Block { tag, a0, a1, role, hit: false, open: false });
         d.blocks.len() - 1
+    }
+    /// has some thread passed `tag` — waiting at most `patience` for it
+    fn wait_passed_for(&self, tag: &str, patience: Duration) -> bool {
+        let deadline = Instant::now() + patience;
+        let mut d = self.dir.lock().unwrap();
+        while !d.passed.iter().any(|p| p.0 == tag) {
+            let left = deadline.saturating_duration_since(Instant::now());
+            if left.is_zero() {
+                return false;
+            }
+            d = self.dir_cv.wait_timeout(d, left).unwrap().0;
+        }
+        true
     }
     fn wait_hit(&self, i: usize) -> bool {
         let deadline = Instant::now() + Duration::from_secs(30);
@@ -163,6 +211,7 @@ struct ThreadCtx {
     rng: Rng,
     /// 0 = never yield at a pause point … 3 = often
     level: u64,
+    role: u64,
     holds_gate: bool,
 }
 
@@ -171,7 +220,11 @@ thread_local! {
 }
 
 fn enter_thread(sched: &Arc<Sched>, rng: Rng, level: u64) {
-    TL.with(|t| *t.borrow_mut() = Some(ThreadCtx { sched: Arc::clone(sched), rng, level, holds_gate: false }));
+    enter_thread_as(sched, rng, level, ROLE_CLIENT)
+}
+
+fn enter_thread_as(sched: &Arc<Sched>, rng: Rng, level: u64, role: u64) {
+    TL.with(|t| *t.borrow_mut() = Some(ThreadCtx { sched: Arc::clone(sched), rng, level, role, holds_gate: false }));
 }
 
 fn leave_thread() {
@@ -208,6 +261,11 @@ fn pause_hook(tag: &'static str, args: [u64; 3]) {
                     ctx.sched.gate.write_unlock();
                 }
             }
+            "kvs.flush.head.locked" => ctx.sched.flush_busy.store(true, Ordering::SeqCst),
+            "kvs.flush.cleared.locked" => ctx.sched.flush_busy.store(false, Ordering::SeqCst),
+            // only a reader's clone of the tree version is a scheduling point; the flush and
+            // compaction threads clone it too (under the tree's own mutexes)
+            "tree.snapshot" if ctx.role != ROLE_CLIENT && !ctx.sched.directed => return,
             _ => {}
         }
         let locked = tag.ends_with(".locked");
@@ -216,7 +274,7 @@ fn pause_hook(tag: &'static str, args: [u64; 3]) {
             d.passed.push((tag, args));
             ctx.sched.dir_cv.notify_all();
             if !locked {
-                let hit = d.blocks.iter().position(|bl| !bl.open && !bl.hit && bl.tag == tag && (bl.a0 == u64::MAX || bl.a0 == args[0]) && (bl.a1 == u64::MAX || bl.a1 == args[1]));
+                let hit = d.blocks.iter().position(|bl| !bl.open && !bl.hit && bl.tag == tag && (bl.role == ANY || bl.role == ctx.role) && (bl.a0 == u64::MAX || bl.a0 == args[0]) && (bl.a1 == u64::MAX || bl.a1 == args[1]));
                 if let Some(i) = hit {
                     d.blocks[i].hit = true;
                     ctx.sched.dir_cv.notify_all();
@@ -224,6 +282,17 @@ fn pause_hook(tag: &'static str, args: [u64; 3]) {
                         d = ctx.sched.dir_cv.wait(d).unwrap();
                     }
                 }
+            }
+            return;
+        }
+        if tag == "tree.snapshot" && ctx.level > 0 && ctx.sched.flush_busy.load(Ordering::SeqCst) && ctx.rng.chance(1, 5) {
+            // The window of C06-tree-snapshot-outside-lock: the reader holds a tree version; let the
+            // flush thread install its version and clear `imm` before the reader goes on.  A store
+            // that clones the version inside the critical section holds the store mutex here, the
+            // flush thread cannot clear, and the reader gives up after a bounded wait.
+            let deadline = Instant::now() + Duration::from_micros(1500);
+            while ctx.sched.flush_busy.load(Ordering::SeqCst) && Instant::now() < deadline {
+                std::thread::sleep(Duration::from_micros(50));
             }
             return;
         }
@@ -401,7 +470,7 @@ fn client_main(w: Arc<World>, cid: u64, ops: Vec<Op>, rng: Rng, level: u64, jitt
 
 /// the flush loop, polled: the real `_memtable_thread` body, returning where it would sleep
 fn flush_main(w: Arc<World>, stop: Arc<AtomicBool>, rng: Rng, level: u64, errors: Arc<Mutex<Vec<String>>>) {
-    enter_thread(&w.sched, rng, level);
+    enter_thread_as(&w.sched, rng, level, ROLE_FLUSH);
     while !stop.load(Ordering::SeqCst) {
         lsmtk::verif::set_single_step(Some(0));
         let r = guarded(AssertUnwindSafe(|| w.kvs.memtable_thread()));
@@ -489,6 +558,8 @@ struct Stats {
     reads_of_unreturned_write: u64,
     scans_crossing_batch: u64,
     events: u64,
+    tree_snapshots: u64,
+    tree_snapshots_between_install_and_clear: u64,
 }
 
 struct Analysis {
@@ -611,6 +682,11 @@ fn analyse(h: &History) -> Analysis {
     let mut imm_now = false;
     let mut installed_now = false;
     let mut rotated_waiting = false;
+    // the flush thread and the memtable it is writing out (between its passing the wait list and
+    // the install of the version that holds the file)
+    let mut flush_thread: Option<u64> = None;
+    let mut flushing: Option<u64> = None;
+    let mut snapped: BTreeSet<(u64, u64)> = BTreeSet::new();
     let mut look_i = 0usize;
     let mut panic_line: Option<String> = None;
     let mut last_ts: u64 = h.seq0;
@@ -620,9 +696,31 @@ fn analyse(h: &History) -> Analysis {
             break;
         }
         match *tag {
-            "c06.client" | "tree.install" | "kvs.write.inserted" => {
-                if *tag == "tree.install" {
-                    st.installs += 1;
+            "c06.client" | "kvs.write.inserted" | "kvs.flush.installed" => {}
+            "tree.install" => {
+                st.installs += 1;
+                match flushing {
+                    Some(old) if flush_thread == Some(*th) => {
+                        toks.push(format!("N{},{}", old, a[0]));
+                        flushing = None;
+                        installed_now = true;
+                    }
+                    _ => toks.push(format!("V{}", a[0])),
+                }
+            }
+            "tree.snapshot" => {
+                // a reader's clone of the tree version (the flush and compaction threads clone it
+                // too; those are not steps of the model)
+                if let Some(k) = cur.get(th) {
+                    if let Some(o) = ops.get(k) {
+                        if !matches!(o.op, Op::Write(_)) && !snapped.contains(k) {
+                            toks.push(format!("T{},{}", rid_of(k.0, k.1), a[0]));
+                            st.tree_snapshots += 1;
+                            if installed_now {
+                                st.tree_snapshots_between_install_and_clear += 1;
+                            }
+                        }
+                    }
                 }
             }
             "c06.inv" => {
@@ -690,10 +788,8 @@ fn analyse(h: &History) -> Analysis {
             "kvs.flush.head.locked" => {
                 toks.push(format!("H{}", a[0]));
                 rotated_waiting = false;
-            }
-            "kvs.flush.installed" => {
-                toks.push(format!("N{}", a[0]));
-                installed_now = true;
+                flush_thread = Some(*th);
+                flushing = Some(a[1]);
             }
             "kvs.flush.cleared.locked" => {
                 toks.push(format!("C{}", a[0]));
@@ -706,6 +802,7 @@ fn analyse(h: &History) -> Analysis {
                 match cur.get(th).and_then(|k| ops.get(k).map(|o| (*k, *o))) {
                     Some((key, o)) => {
                         let rid = rid_of(key.0, key.1);
+                        snapped.insert(key);
                         toks.push(format!("S{},{},{},{}", rid, ts.unwrap_or(u64::MAX), a[1], a[2]));
                         st.snaps += 1;
                         if !in_flight.is_empty() {
@@ -726,7 +823,9 @@ fn analyse(h: &History) -> Analysis {
                         let mut seen: Vec<(usize, Option<u64>)> = vec![];
                         match (&o.op, &o.res, is_scan) {
                             (Op::Get(k), res, false) => {
-                                if !h.explicit_looks {
+                                // (directed runs: the director places its own lookups; a helper
+                                // client's lookup goes right after its snapshot, as in random runs)
+                                if !h.explicit_looks || key.0 != 0 {
                                     toks.push(format!("G{},{}", rid, k));
                                     obs.push(render_get(&h.keys, rid, res));
                                 }
@@ -735,7 +834,7 @@ fn analyse(h: &History) -> Analysis {
                                 }
                             }
                             (Op::Scan(lo, hi), res, true) => {
-                                if !h.explicit_looks {
+                                if !h.explicit_looks || key.0 != 0 {
                                     toks.push(format!("Q{},{},{}", rid, lo, hi));
                                     obs.push(render_scan(&h.keys, rid, res));
                                 }
@@ -764,8 +863,8 @@ fn analyse(h: &History) -> Analysis {
                 obs.push(h.look_obs.get(look_i).cloned().unwrap_or_else(|| "missing".into()));
                 look_i += 1;
             }
-            // events of other properties' hooks (C20's scheduler events) share the log
-            other if other.starts_with("sched.") => {}
+            // events of other properties' hooks (the scheduler log of C20, …) are not this model's
+            other if !(other.starts_with("kvs.") || other.starts_with("c06.") || other.starts_with("tree.")) => {}
             other => unmapped.push(format!("unknown event {}", other)),
         }
     }
@@ -1024,10 +1123,10 @@ fn pick_keys(rng: &mut Rng, n: usize) -> Vec<Vec<u8>> {
     idx.into_iter().map(|i| KEYS[i].to_vec()).collect()
 }
 
-fn open_world(tag: &str, cfg: &Cfg, keys: Vec<Vec<u8>>, pad: usize, directed: bool) -> Result<(Arc<World>, String), String> {
+fn open_world(tag: &str, cfg: &Cfg, keys: Vec<Vec<u8>>, pad: usize, directed: bool, gated: bool) -> Result<(Arc<World>, String), String> {
     let root = scratch_dir(tag);
     let kvs = KeyValueStore::open(cfg.options(&root)).map_err(errs)?;
-    Ok((Arc::new(World { kvs: Arc::new(kvs), sched: Sched::new(directed), keys, pad }), root))
+    Ok((Arc::new(World { kvs: Arc::new(kvs), sched: Sched::new(directed, gated), keys, pad }), root))
 }
 
 fn close_world(w: Arc<World>, root: &str) {
@@ -1078,6 +1177,7 @@ struct RandomOut {
     desc: String,
     compactions: u64,
     clients: u64,
+    gated: bool,
 }
 
 fn final_reads(w: &Arc<World>, cid: u64, nkeys: usize) -> Vec<OpRec> {
@@ -1103,10 +1203,15 @@ fn run_random(seed: u64, case: u64, thorough: bool, completed: bool) -> Result<R
     let level = rng.below(4);
     let jitter = rng.below(3);
     let mix = rng.below(3);
+    // half of the runs keep scans apart from the memtable drop and from compaction steps (the
+    // gate of the first version of this check, from before the D-4 / D-5 repairs); the other half
+    // lets them overlap
+    let gated = rng.chance(1, 2);
     let cfg = store_cfg(&mut rng, mem_bytes);
     let keys = pick_keys(&mut rng, nkeys);
-    let desc = format!("clients={} compactors={} keys={} ops={} mem={} pad={} yield={} jitter={} mix={} {}", clients, compactors, nkeys, nops, mem_bytes, pad, level, jitter, mix, cfg.render());
-    let (w, root) = open_world(&format!("c06r{}", case), &cfg, keys.clone(), pad, false)?;
+    let desc = format!("clients={} compactors={} keys={} ops={} mem={} pad={} yield={} jitter={} mix={} scan-gate={} {}", clients, compactors, nkeys, nops, mem_bytes, pad, level, jitter, mix, gated, cfg.render());
+    lsmtk::verif::versions_reset();
+    let (w, root) = open_world(&format!("c06r{}", case), &cfg, keys.clone(), pad, false, gated)?;
     let _ = lsmtk::verif::take_events();
     let (seq0, mem0, _, _) = w.kvs.verif_state();
     lsmtk::verif::events_enable(true);
@@ -1164,7 +1269,7 @@ fn run_random(seed: u64, case: u64, thorough: bool, completed: bool) -> Result<R
         stop_comp.store(true, Ordering::SeqCst);
         let hist = History { completed, seq0, mem0, keys, ops, events, explicit_looks: false, look_obs: vec![], end_state: (0, 0, false), bg_errors: errors.lock().unwrap().clone(), stuck };
         std::mem::forget(w);
-        return Ok(RandomOut { hist, desc, compactions: 0, clients });
+        return Ok(RandomOut { hist, desc, compactions: 0, clients, gated });
     }
     stop_flush.store(true, Ordering::SeqCst);
     let _ = flush.join();
@@ -1179,7 +1284,7 @@ fn run_random(seed: u64, case: u64, thorough: bool, completed: bool) -> Result<R
     let bg_errors = errors.lock().unwrap().clone();
     let compactions = *ncomp.lock().unwrap();
     close_world(w, &root);
-    Ok(RandomOut { hist: History { completed, seq0, mem0, keys, ops, events, explicit_looks: false, look_obs: vec![], end_state: (s, m, imm), bg_errors, stuck: None }, desc, compactions, clients })
+    Ok(RandomOut { hist: History { completed, seq0, mem0, keys, ops, events, explicit_looks: false, look_obs: vec![], end_state: (s, m, imm), bg_errors, stuck: None }, desc, compactions, clients, gated })
 }
 
 // ---------------------------------------------------------------------------- directed runs -----
@@ -1289,13 +1394,15 @@ struct DirectedOut {
 
 /// variant 0: snapshot between two inserts of one batch; 1: a writer in flight at scan-open time
 /// finishes while the cursor is open; 2: a batch fully inserted behind a slower, earlier writer;
-/// 3: the probe (one put parked after its log append, one load)
+/// 3: the probe (one put parked after its log append, one load); 4: a reader parked right after it
+/// cloned the tree version while the flush thread installs its version and clears `imm`
 fn run_directed(seed: u64, case: u64, variant: u64, completed: bool) -> Result<DirectedOut, String> {
     let mut rng = Rng::for_case(seed, 1, case);
     let nkeys = rng.range(3, 6) as usize;
     let keys = pick_keys(&mut rng, nkeys);
     let cfg = store_cfg(&mut rng, 1 << 20);
-    let (w, root) = open_world(&format!("c06d{}", case), &cfg, keys.clone(), 0, true)?;
+    lsmtk::verif::versions_reset();
+    let (w, root) = open_world(&format!("c06d{}", case), &cfg, keys.clone(), 0, true, false)?;
     let _ = lsmtk::verif::take_events();
     let (seq0, mem0, _, _) = w.kvs.verif_state();
     lsmtk::verif::events_enable(true);
@@ -1386,6 +1493,72 @@ fn run_directed(seed: u64, case: u64, variant: u64, completed: bool) -> Result<D
             others.extend(t2.join().unwrap_or_default());
             d.scan(0, nkeys - 1);
         }
+        4 => {
+            // C06-tree-snapshot-outside-lock: a reader that holds a tree version while the flush
+            // thread installs the version with the flushed file and clears `imm`
+            let older = rng.chance(1, 2);
+            desc = format!("tree-version-vs-clear keys={} older-version-flushed={}", nkeys, older);
+            let stop = Arc::new(AtomicBool::new(false));
+            let errors = Arc::new(Mutex::new(vec![]));
+            let flush = {
+                let (w, s, e) = (Arc::clone(&w), Arc::clone(&stop), Arc::clone(&errors));
+                std::thread::spawn(move || flush_main(w, s, Rng::new(7), 0, e))
+            };
+            if older {
+                // an older value of the key, flushed completely first
+                d.put(a);
+                d.put(b);
+                w.kvs.verif_request_flush();
+                if !w.sched.wait_passed_for("kvs.flush.cleared.locked", Duration::from_secs(30)) {
+                    stuck = Some("the first flush never completed".into());
+                }
+            }
+            d.put(a);
+            d.put(c);
+            // the flush thread parks inside `_ingest`, holding the old version, before the install
+            let f1 = w.sched.block_role("tree.snapshot", ANY, ANY, ROLE_FLUSH);
+            w.kvs.verif_request_flush();
+            if !w.sched.wait_hit(f1) {
+                stuck = Some("the flush thread never reached its ingest".into());
+            }
+            // the reader parks right after it cloned the tree version
+            let r1 = w.sched.block_role("tree.snapshot", ANY, ANY, ROLE_CLIENT);
+            let reader_scans = rng.chance(1, 3);
+            let t = spawn_client(&w, 1, vec![if reader_scans { Op::Scan(0, nkeys - 1) } else { Op::Get(a) }]);
+            if !w.sched.wait_hit(r1) {
+                stuck = Some("the reader never cloned the tree version".into());
+            }
+            let cleared_before = w.sched.dir.lock().unwrap().passed.iter().filter(|p| p.0 == "kvs.flush.cleared.locked").count();
+            w.sched.release(f1);
+            // the flush thread goes on: install, then `imm = None` under the store mutex.  A store
+            // that clones the version inside its critical section has the reader holding that
+            // mutex: the flush thread waits, and so do we — for a bounded time.
+            let deadline = Instant::now() + Duration::from_millis(150);
+            loop {
+                let n = w.sched.dir.lock().unwrap().passed.iter().filter(|p| p.0 == "kvs.flush.cleared.locked").count();
+                if n > cleared_before || Instant::now() >= deadline {
+                    break;
+                }
+                std::thread::sleep(Duration::from_micros(200));
+            }
+            w.sched.release(r1);
+            others.extend(t.join().unwrap_or_default());
+            if !w.sched.wait_passed_for("kvs.flush.cleared.locked", Duration::from_secs(30)) {
+                stuck = Some("the flush never completed".into());
+            }
+            // (with `older`, the first flush's event satisfies the wait above: wait for the count)
+            let t0 = Instant::now();
+            while w.sched.dir.lock().unwrap().passed.iter().filter(|p| p.0 == "kvs.flush.cleared.locked").count() <= cleared_before && t0.elapsed() < Duration::from_secs(30) {
+                std::thread::sleep(Duration::from_micros(200));
+            }
+            stop.store(true, Ordering::SeqCst);
+            let _ = flush.join();
+            for e in errors.lock().unwrap().iter() {
+                stuck = Some(format!("flush thread: {}", e));
+            }
+            d.get(a);
+            d.get(c);
+        }
         _ => {
             desc = "probe".to_string();
             let blk = w.sched.block("kvs.write.logged", u64::MAX, u64::MAX);
@@ -1432,7 +1605,8 @@ fn run_dup(seed: u64, case: u64, completed: bool) -> Result<(DirectedOut, String
     let nkeys = rng.range(2, 5) as usize;
     let keys = pick_keys(&mut rng, nkeys);
     let cfg = store_cfg(&mut rng, 1 << 20);
-    let (w, root) = open_world(&format!("c06u{}", case), &cfg, keys.clone(), 0, true)?;
+    lsmtk::verif::versions_reset();
+    let (w, root) = open_world(&format!("c06u{}", case), &cfg, keys.clone(), 0, true, false)?;
     let _ = lsmtk::verif::take_events();
     let (seq0, mem0, _, _) = w.kvs.verif_state();
     lsmtk::verif::events_enable(true);
@@ -1501,6 +1675,8 @@ fn add_stats(rec: &mut Recorder, prefix: &str, st: &Stats) {
         ("reads_returning_a_write_that_had_not_returned", st.reads_of_unreturned_write),
         ("scan_x_batch_pairs_checked", st.scans_crossing_batch),
         ("events", st.events),
+        ("reader_tree_snapshots", st.tree_snapshots),
+        ("reader_tree_snapshots_between_install_and_clear", st.tree_snapshots_between_install_and_clear),
     ] {
         rec.add(&format!("{}.{}", prefix, k), v);
     }
@@ -1549,7 +1725,7 @@ pub fn run(args: &Args) {
             rec.skip();
             continue;
         }
-        let variant = i % 3;
+        let variant = [0, 4, 1, 2][(i % 4) as usize];
         match run_directed(args.seed, 1 + i, variant, completed) {
             Ok(out) => {
                 let an = analyse(&out.hist);
@@ -1616,6 +1792,7 @@ pub fn run(args: &Args) {
             Ok(out) => {
                 let an = analyse(&out.hist);
                 rec.count("random");
+                rec.count(if out.gated { "random.scans_kept_apart_from_release" } else { "random.scans_overlap_release" });
                 rec.count(&format!("random.clients{}", out.clients));
                 rec.add("random.compactions", out.compactions);
                 add_stats(&mut rec, "random", &an.stats);
@@ -1633,7 +1810,7 @@ pub fn run(args: &Args) {
     }
     lsmtk::verif::set_pause_hook(None);
     rec.finish(
-        "one case = one recorded run of the real store (one request line = its whole event trace): a probe, directed schedules (snapshot between two inserts of a batch; writer in flight while a cursor is open; batch inserted behind a slower earlier writer), duplicate-key batches (D-16, only there), and random histories of 2..8 client threads (put/del/2..4-key batch/load/scan over 2..8 keys) with the flush loop and 1..3 compaction loops running and memtables of 64..4096 bytes; non-trivial = directed runs, and random runs in which a snapshot was taken while a writer was in flight and the memtable was rotated at least once; distinct by trace text",
+        "one case = one recorded run of the real store (one request line = its whole event trace): a probe, directed schedules (snapshot between two inserts of a batch; writer in flight while a cursor is open; batch inserted behind a slower earlier writer; reader parked after cloning the tree version while the flush installs and clears), duplicate-key batches (D-16, only there), and random histories of 2..8 client threads (put/del/2..4-key batch/load/scan over 2..8 keys) with the flush loop and 1..3 compaction loops running and memtables of 64..4096 bytes; non-trivial = directed runs, and random runs in which a snapshot was taken while a writer was in flight and the memtable was rotated at least once; distinct by trace text",
         &[("read_timestamp_policy", json_str(&policy_note))],
     );
 }
